@@ -23,13 +23,40 @@ class C02(PipelineProp):
             "distinct completed case with at least one piece longer than 6 error lengths"
         )
 
+    def gen_two_name_styles(self, rng):
+        """a single-haplotype assembly whose scaffold names mix scaffold_<n> with scaffold_<n>_<m> (what a
+        break step leaves behind): the second style has the shape <word>_<anything>_<digits> in which the
+        namer reads a haplotype prefix.  Painted scaffolds alternate between the two styles, which the chromosome
+        namer accepts (13.5); completion only"""
+        t = rng.choice([10, 100, 1000])
+        n1, n2 = rng.randint(40, 120) * t, rng.randint(20, 80) * t
+        cut = rng.randint(10, n1 // t - 10) * t
+        c1 = rng.randint(n1 // 4, n1 // 2)
+        c2 = rng.randint(n2 // 4, n2 // 2)
+        a, b = "scaffold_1", f"scaffold_{rng.randint(2, 30)}_{rng.randint(1, 3)}"
+        inp = {"scaffolds": [
+            {"name": a, "rows": [["F", a, 1, c1, 1, []], ["G", 200, "scaffold"], ["F", a, c1 + 201, n1, 1, []]]},
+            {"name": b, "rows": [["F", b, 1, c2, 1, []], ["G", 50, "scaffold"], ["F", b, c2 + 51, n2, 1, []]]}]}
+        ptx = {"bpt": f"{t}.000000", "scaffolds": [
+            {"name": "Scaffold_1", "rows": [["F", a, 1, cut, 1, ["Painted"]]]},
+            {"name": "Scaffold_2", "rows": [["F", b, 1, n2, rng.choice([1, -1]), ["Painted"]], ["G", 100, "scaffold"],
+                                            ["F", a, cut + 1, n1, 1, ["Painted"]]]}]}
+        return {"gen": "two-name-styles", "input": inp, "pretext": ptx, "prefix": "SUPER_", "pieces": None}
+
     def gen_case(self, rng):
+        if rng.random() < 0.02:
+            return self.gen_two_name_styles(rng)
         if rng.random() < 0.35:
             inp, ptx, pieces = P.gen_boundary_sweep(rng)
             return {"gen": "sweep", "input": inp, "pretext": ptx, "prefix": "SUPER_", "pieces": pieces}
         inp = P.gen_input(rng, style=rng.choice(["tpf", "tpf", "fasta"]), double_gaps=rng.choice([0.0, 0.0, 0.3]))
-        ptx, pieces = P.gen_pretext(rng, inp, "edit")
-        return {"gen": "edit", "input": inp, "pretext": ptx, "prefix": "SUPER_", "pieces": pieces}
+        giant = rng.random() < 0.04
+        if giant:
+            # chromosomes beyond 2**32 bp (lungfish, mistletoe): the same edit scripts at 10^7 times the size
+            inp = P.scale_input(inp, 10**7)
+            giant = max(P.sc_len(sc) for sc in inp["scaffolds"]) > 2**32
+        ptx, pieces = P.gen_pretext(rng, inp, "edit", max_texels=32768 if giant else None)
+        return {"gen": "edit/giant" if giant else "edit", "input": inp, "pretext": ptx, "prefix": "SUPER_", "pieces": pieces}
 
     def oracle(self, case, obs):
         if "err" in obs:
